@@ -1153,6 +1153,26 @@ struct ProxyEngine : Engine
 			int64_t const sd = rng.chance(0.3) ? 0 : rng.logu(1000, 2000000000);
 			p.cfg["stop_delay"] = sd;
 		}
+		// a client whose pipelined requests all fail (origin that cannot be resolved or connected) over a path with tiny
+		// segments and a long delay, and the next client already waiting: the error replies take long to write, and the
+		// next client is accepted the moment the first of them is done
+		if (sc_overlap && nc >= 2 && rng.chance(0.35))
+		{
+			p.cfg["mtu_c"] = rng.pick(std::vector<int64_t>{8, 13, 40});
+			p.cfg["lat_c"] = rng.logu(20000000, 200000000);
+			p.cfg["o" + std::to_string(p.c("c0o")) + "kind"] = rng.range(1, 5);
+			p.cfg["c1ov"] = 1;
+			p.cfg["c1gap"] = 0;
+			std::vector<Op> ops;
+			int mine = 0;
+			for (auto o : p.ops)
+			{
+				if (o.op == "req" && o.a == 0) { o.b &= ~int64_t(1 << 16); ++mine; }
+				ops.push_back(o);
+			}
+			if (mine == 1) for (auto const& o : p.ops) if (o.op == "req" && o.a == 0) { ops.push_back(o); break; }
+			p.ops = ops;
+		}
 		// cuts of each client's byte stream
 		Decoded const d = decode(p);
 		for (int j = 0; j < nc; ++j)
